@@ -4,6 +4,8 @@ import (
 	"fmt"
 	"reflect"
 	"strings"
+	"sync"
+	"sync/atomic"
 
 	"github.com/vimeo/dials/tagformat/caseconversion"
 
@@ -31,7 +33,7 @@ func init() {
 		ID: "C19",
 		Rule: "Part A: every list (length 1..2 quick, 1..3 thorough) of words over the alphabet {a,b,z,0,9}, word length <=3, first char a letter (93 words) is enumerated " +
 			"exhaustively for each of the 6 encoder/decoder pairs and Decode(Encode(list)) must equal list; plus seeded long lists (up to 8 words of up to 10 chars over [a-z0-9]). " +
-			"Part B: Go identifiers assembled from the harness's own vocabulary (66 capitalised ordinary words of length >=2, 38 initialisms): exhaustive for 1..2 items, seeded for 3..5 items; " +
+			"Part B: Go identifiers assembled from the harness's own vocabulary (66 capitalised ordinary words of length >=2, 38 initialisms, 9 plural initialisms such as IDs/URLs used only as the last word after an ordinary word): exhaustive for 1..2 items, seeded for 3..5 items; " +
 			"only names whose runs of initialisms have a unique segmentation are judged; DecodeGoCamelCase(name) must equal the generating words. " +
 			"distinct_nontrivial counts distinct (scheme, list) pairs with >=2 words (Part A, distinct by construction for the exhaustive part, hashed for seeded) plus distinct judged identifiers with >=2 items (Part B).",
 		Assumptions: []string{
@@ -80,7 +82,7 @@ func c19CheckRoundTrip(w *fw.Worker, idx int, sc caseScheme, words []string) {
 }
 
 func c19CheckGoName(w *fw.Worker, idx int, words []string) bool {
-	if !gen.UniqueSegmentation(words) {
+	if !gen.UniqueSegmentation(words) || !gen.PluralPlacementOK(words) {
 		w.Count("goident_skipped_ambiguous", 1)
 		return false
 	}
@@ -214,6 +216,44 @@ func runC19(w *fw.Worker) {
 				}
 				idx++
 			}
+		}
+	}
+	// ---- concurrent round trips: the encoders and decoders are plain functions and must be safe to call from
+	// many goroutines at once (sources and decoders of several Dials instances do exactly that)
+	if w.ReplayCase < 0 {
+		var wg sync.WaitGroup
+		var bad atomic.Int64
+		var firstBad atomic.Value
+		nG, per := 12, w.Pick(6000, 60000)
+		for g := 0; g < nG; g++ {
+			rr := fw.NewRand(fw.Mix(w.Seed, uint64(w.Shard*1000+g)))
+			wg.Add(1)
+			go func(rr *fw.Rand) {
+				defer wg.Done()
+				defer func() {
+					if p := recover(); p != nil {
+						bad.Add(1)
+						firstBad.CompareAndSwap(nil, fmt.Sprintf("panic in a concurrent encode/decode: %v", p))
+					}
+				}()
+				for k := 0; k < per; k++ {
+					ws := gen.RandomWords(rr, rr.Range(1, 4), 0)
+					sc := caseSchemes[rr.Intn(2)] // the two camel-case schemes share the title caser
+					enc := sc.enc(caseconversion.DecodedIdentifier(ws))
+					dec, err := sc.dec(enc)
+					if err != nil || !reflect.DeepEqual([]string(dec), ws) {
+						bad.Add(1)
+						firstBad.CompareAndSwap(nil, fmt.Sprintf("%s: %q -> %q -> %q (err %v) under %d concurrent goroutines", sc.name, ws, enc, []string(dec), err, nG))
+					}
+				}
+			}(rr)
+		}
+		wg.Wait()
+		w.Eval(int64(nG * per))
+		w.Count("concurrent_roundtrips", int64(nG*per))
+		if bad.Load() > 0 {
+			msg, _ := firstBad.Load().(string)
+			w.Violation(-1, "roundtrip-mismatch-under-concurrency", fmt.Sprintf("%d of %d concurrent camel-case round trips failed; first: %s", bad.Load(), nG*per, msg), nil)
 		}
 	}
 	// ---- seeded part (replayable by case index)
